@@ -12,6 +12,7 @@ From PV Require Import Extract.RunC15.
 From PV Require Import Extract.RunC18.
 From PV Require Import Extract.RunC16.
 From PV Require Import Extract.RunC14.
+From PV Require Import Extract.RunC07.
 Import ListNotations.
 Local Open Scope N_scope.
 
@@ -111,6 +112,8 @@ Definition run (cmd : N) (arg : sx) : sx :=
   | 152 => run_c15_2 arg
   | 153 => run_c15_3 arg
   | 154 => run_c15_4 arg
+  | 70 => run_c07_state arg
+  | 71 => run_c07_sort arg
   | 180 => run_c18_parse arg
   | 181 => run_c18_checks arg
   | 160 => run_c16_build arg
